@@ -86,6 +86,8 @@ def run(ctx):
             (dict(hosts=["10.0.0.1", "10.0.0.2"], rounds=3, triggers=trig, env=dict(delivery="3/4", frames=[40], http="upper")), 1),
             # an accessory that accepts and then says nothing; close()/shutdown() while its RST is in the kernel but not yet seen by the loop
             (dict(hosts=["10.0.0.1"], rounds=4, triggers=["close+rst", "shutdown+rst", "close", "drop", "zc-same"], behaviours=["ok", "mute", "mute-m3"], preemptive_triggers=False), 2),
+            # the peer drops the connection and the application closes the pairing a few loop iterations later
+            (dict(hosts=["10.0.0.1"], rounds=4, triggers=["drop+close", "zc-same", "ensure"], behaviours=["ok"], prelude=["ok|10.0.0.1|ok"], preemptive_triggers=False), 2),
             # bursts of nudges while the connector sits in its back-off, then close / shutdown at every later point
             (dict(hosts=["10.0.0.1"], rounds=3, triggers=["double-nudge", "close"], prelude=["refuse"], behaviours=["ok"], preemptive_triggers=False), 3),
             # shut down (from connected / from retrying): announcements and callers keep arriving afterwards
